@@ -37,18 +37,32 @@ func loadTable(c *core.Ctx, initFn *ssa.Function, field string, maxLen int) (rs 
 	type variant struct {
 		n        int
 		twoPhase bool // Initialize with the first loader, add the rest, Initialize again: the second run is what counts
+		viaSet   bool // the loaders are given by SetLoaders (replace) instead of AddLoaders
+	}
+	var setL *ssa.Function
+	if recv := initFn.Signature.Recv(); recv != nil && add != nil {
+		if T := core.NamedOf(recv.Type()); T != nil {
+			if m := c.DeclaredMethod(T, "SetLoaders"); m != nil && len(m.Params) == 2 {
+				setL = m
+			}
+		}
 	}
 	var variants []variant
 	for n := 0; n <= maxLen; n++ {
-		variants = append(variants, variant{n, false})
+		variants = append(variants, variant{n, false, false})
 	}
 	if add != nil {
 		for n := 2; n <= maxLen; n++ {
-			variants = append(variants, variant{n, true})
+			variants = append(variants, variant{n, true, false})
+		}
+	}
+	if setL != nil {
+		for n := 2; n <= maxLen; n++ {
+			variants = append(variants, variant{n, false, true})
 		}
 	}
 	for _, vr := range variants {
-		n, twoPhase := vr.n, vr.twoPhase
+		n, twoPhase, viaSet := vr.n, vr.twoPhase, vr.viaSet
 		var trace []string
 		var want []string
 		var wantErr bool
@@ -124,7 +138,15 @@ func loadTable(c *core.Ctx, initFn *ssa.Function, field string, maxLen int) (rs 
 				}
 				return absint.Nil{}
 			}
-			if add != nil {
+			if viaSet {
+				ip0 := absint.New(t)
+				ip0.IsLog, ip0.InScope = core.IsLogCall, c.InScope
+				if out := ip0.Run(setL, []absint.Value{cfg, &absint.List{Elems: append([]absint.Value(nil), ls.Elems...)}}, nil); out.Undecided != nil {
+					panic(&absint.Undecided{Msg: "SetLoaders: " + out.Undecided.Msg})
+				} else if out.Panic != nil {
+					panic(&absint.Undecided{Msg: "SetLoaders panics: " + out.Panic.Msg})
+				}
+			} else if add != nil {
 				// the loaders are registered the way users register them: one AddLoaders call with the first, one
 				// with the rest (so the list the start routine loads from is whatever AddLoaders fills, wherever it lives)
 				ip0 := absint.New(t)
@@ -154,7 +176,7 @@ func loadTable(c *core.Ctx, initFn *ssa.Function, field string, maxLen int) (rs 
 			return t, []absint.Value{cfg}, nil
 		}
 		check := func(ip *absint.Interp, out absint.Outcome) {
-			w := fmt.Sprintf("%d loader(s) (re-initialised after adding all but the first: %v): trace=%v => %s", n, twoPhase, trace, showOutcome(out))
+			w := fmt.Sprintf("%d loader(s) (re-initialised after adding all but the first: %v; given by SetLoaders: %v): trace=%v => %s", n, twoPhase, viaSet, trace, showOutcome(out))
 			if out.Panic != nil {
 				rs.fail("error", "PANIC "+w)
 				return
